@@ -477,7 +477,7 @@ def clean_dgram(r):
     return W.msg(rprefix(r), *subs)
 
 
-def guided():
+def guided(lim=6000):
     """model-guided datagrams: one per Panic / cost branch of RecvModel.v (class, datagram list).
     The last datagram of each list is the one expected to fail; the ones before set the stage."""
     S, V, H = PFX_S, PFX_V, PFX_H
@@ -499,13 +499,13 @@ def guided():
     g.append((5, [W.msg(S, W.heartbeat(EID_R, EID_W, I64MIN, 5, 7))]))
     g.append((5, [W.msg(S, W.heartbeat(EID_R, EID_W, I64MIN, 0, 7, final=True)), W.msg(S, W.data(EID_R, EID_W, 1, kp))]))
     g.append((5, [W.msg(H, W.heartbeat(EID_R, EID_W, I64MIN, 0, 2**31 - 1, final=True, live=True)),
-                  W.msg(H, W.gap(EID_R, EID_W, 3, 3))]))
+                  W.msg(H, W.data(EID_R, EID_W, 2, kp))]))
     g.append((6, [W.msg(S, W.heartbeat(EID_R, EID_W, I64MAX, I64MAX, 7, final=True)), W.msg(S, W.data(EID_R, EID_W, I64MAX, kp)),
                   W.msg(S, W.data(EID_R, EID_W, 3, kp))]))
     g.append((6, [W.msg(S, W.nack_frag(EID_R, EID_W, I64MAX, 1, bits=[0], count=3))]))
     g.append((6, [W.msg(S, W.heartbeat(EID_R, EID_W, I64MAX, I64MAX, 7, final=True)),
                   W.msg(S, W.data_frag(EID_R, EID_W, I64MAX, 1, 1, 8, 8, bytes(8))), W.msg(S, W.heartbeat(EID_R, EID_W, 1, 1, 9))]))
-    n = 260
+    n = 600 if lim <= 6000 else 1200
     g.append((7, [W.msg(S, *[W.data_frag(EID_R, EID_W, 1, i + 1, 65535, 1, 65535 * n, b"x") for i in range(n)])]))
     return g
 
@@ -610,7 +610,7 @@ def gen(r, tier):
     cap = captured(dict(frag=64, a=2, m=2, j=1, rel=1))
     real = [b for (h, b) in cap if len(b) >= 20]
     real_user = [b for (h, b) in cap if not h.endswith("m")]
-    g = guided()
+    g = guided(lim)
     pool_classy = []
     # every guided class witness ends one case; its stage-setting datagrams stay directly before it
     for i in range(ncases):
@@ -636,7 +636,9 @@ def gen(r, tier):
             ds.append(d)
         tail = None
         if i < len(g):
-            tail = g[i]
+            # a model-guided witness runs alone: earlier datagrams could raise the counts it must exceed
+            cases.append((dict(knobs, probe=0, rel=1, m=max(1, knobs["m"])), list(g[i][1]), "guided"))
+            continue
         elif i % 3 == 0 and pool_classy:
             tail = pool_classy.pop(r.randrange(len(pool_classy)))
         if tail is not None:
